@@ -18,5 +18,16 @@ def run(ctx):
     jobs = [dict(ctx=ctx, binary=binary, name="ev%d" % k, stacks=st[k::parts], outs=seq.OUTS3, maxcalls=3 if quick else 4, execs=2, workers=8, entries=1 if quick else 2) for k in range(parts)]
     mism = seq.run_jobs(ctx, jobs, par=2)
     seq.report(ctx, mism, accept)
+    # events under concurrency: OnFull / OnTimeoutExceeded / OnHedge / OnRetry fire exactly when the model's step happens
+    # (waits cancelled by a context or an enclosing Timeout, retries cut short by cancellation)
+    import p_c07, tscen
+    from tscen import scenario, fn, start, env, to, hg, bh, retry, fb
+    scs = []
+    for st in ([bh("b", 1, wait=5)], [to(3), bh("b", 1, wait=5)], [retry(2, dly=2), bh("b", 1, wait=1)], [hg(1, 2), bh("b", 2, wait=3)], [fb(), retry(1, dly=3), to(2)]):
+        for ct in (1, 2, 3, 4):
+            fns = [[fn(6, "R1", None, True)] * 3, [fn(2, "R0", "E1", True)] * 3, [fn(2, "R1", None, True)] * 3]
+            scs.append(scenario(st, fns, [start(1), start(2, 1), start(3, 1, True), env("CtxCancel", ct, 2)]))
+            scs.append(scenario(st, fns, [start(1), start(2, 1), start(3, 1, True), env("AsyncCancel", ct, 3)]))
+    p_c07.run_family(ctx, "c16t", scs)
     return vlib.finish(ctx, rule="all stacks of depth <= D over %d descriptors; the ordered per-execution log of every listener (name, policy, payload) compared with the spec's, under 5 listener-registration variants; "
                        "non-trivial = more than one invocation or any policy event" % len(NAMES), exhaustive=True)
